@@ -123,7 +123,7 @@ pub fn run(report: &mut Report, replay: Option<&Value>) {
         return;
     }
     super::replay_corpus(report, &|r, v| replay_one(r, v));
-    let n = if report.thorough() { 40_000 } else { 3_000 };
+    let n = if report.thorough() { 40_000 } else { 8_000 };
     let scratch = Scratch::new("c07");
     let mut stats = GenStats::default();
     let mut cfg = CaseCfg::default();
